@@ -85,23 +85,34 @@ def lean_check(pid, tier, log):
     returns (obligations:list[str], discharged:list[str], problems:list[str])"""
     obl = load_obligations().get(pid, {})
     module = obl.get("module")
-    theorems = list(obl.get("theorems", []))
+    bridge = obl.get("bridge")
+    theorems = list(obl.get("theorems", [])) + list(obl.get("bridge_theorems", []))
     problems = []
     if not module:
         return theorems, [], ["no Lean module registered for " + pid]
-    # regenerate the translated layer from /repo (step 1)
+    # (1) regenerate the translated leaf layer from the current /repo source
     try:
         from . import translate
 
-        translate.regenerate()
+        for pr in translate.regenerate(only=pid):
+            problems.append("translator: " + pr)
     except Exception as e:  # noqa: BLE001
         problems.append("translator failed: %r" % (e,))
-    rc, out = lake("build", module, "pabu_driver")
-    log.append(out[-4000:])
+    # (2) build the property module, the bridge module (if any) and the driver
+    modules = [module] + ([bridge] if bridge else [])
+    built = []
+    for m in modules:
+        rc, out = lake("build", m)
+        log.append(out[-3000:])
+        if rc != 0:
+            problems.append("lake build %s failed: %s" % (m, _first_error(out)))
+        else:
+            built.append(m)
+    rc, out = lake("build", "pabu_driver")
     if rc != 0:
-        problems.append("lake build %s failed" % module)
-        # find which of the theorems still check: try the audit anyway (will fail to import)
-        return theorems, [], problems + [_first_error(out)]
+        raise FileNotFoundError("pabu_driver does not build: " + _first_error(out))
+    if not built:
+        return theorems, [], problems
     # forbidden constructs in the sources (outside comments)
     for root, _, files in os.walk(core.LEAN_DIR):
         if ".lake" in root:
@@ -115,7 +126,8 @@ def lean_check(pid, tier, log):
     # axiom audit
     audit = os.path.join(core.LEAN_DIR, ".lake", f"Audit_{pid}.lean")
     with open(audit, "w") as f:
-        f.write(f"import {module}\n")
+        for m in built:
+            f.write(f"import {m}\n")
         for t in theorems:
             f.write(f"#print axioms {t}\n")
     rc, out = lake("env", "lean", audit)
@@ -136,7 +148,7 @@ def lean_check(pid, tier, log):
         else:
             problems.append(f"theorem {t} not found / not checked")
     if tier == "thorough" and not problems:
-        rc, out = lake("env", "leanchecker", module, timeout=3600)
+        rc, out = lake("env", "leanchecker", *built, timeout=3600)
         log.append(out[-2000:])
         if rc != 0:
             problems.append("leanchecker rejected " + module)
@@ -336,7 +348,7 @@ def main(argv=None):
             "obligation_names": theorems,
             "undischarged": [t for t in theorems if t not in discharged],
             "lean_problems": problems,
-            "checker_cmd": f"cd lean && lake build {load_obligations().get(pid, {}).get('module', '')} && lake env lean .lake/Audit_{pid}.lean  # '#print axioms' of every listed theorem",
+            "checker_cmd": f"python -m harness.translate && cd lean && lake build {load_obligations().get(pid, {}).get('module', '')} {load_obligations().get(pid, {}).get('bridge') or ''} && lake env lean .lake/Audit_{pid}.lean  # regenerate Gen/ from /repo, build property + bridge modules, '#print axioms' of every listed theorem",
             "trusted_base": [
                 "Lean 4.33 kernel",
                 "axioms allowed: propext, Classical.choice, Quot.sound (audited by #print axioms on every listed theorem)",
